@@ -714,7 +714,7 @@ func partB(t *testing.T, k *checker, rep *core.Report, thorough bool) int64 {
 	if len(k.viols) == 0 {
 		if k.ctr["b_dial_plaintext_redial_completed"] == 0 || k.ctr["b_dial_force_failed"] == 0 || k.ctr["b_dial_force_completed_rc4"] == 0 ||
 			k.ctr["b_accept_force_refused"] == 0 || k.ctr["b_accept_force_completed_rc4"] == 0 {
-			core.HarnessError("vacuous Part B: counters %v", k.ctr)
+			k.rep.Vacuous("vacuous Part B: counters %v", k.ctr)
 		}
 	}
 	return int64(len(accCases) + len(dialCases))
